@@ -47,13 +47,20 @@ typedef struct varintBP128Meta {
  * BP128 Encoding/Decoding (Raw Values)
  * ==================================================================== */
 
-/* Calculate maximum encoded size for count values */
+/* Maximum bytes of the leading tagged varint: the element count written by
+ * varintBP128Encode64, the first value written by the delta encoders */
+#define VARINT_BP128_MAX_HEADER_BYTES 9
+
+/* Calculate maximum encoded size for count values (covers all four
+ * encoders: Encode32, Encode64, DeltaEncode32, DeltaEncode64) */
 static inline size_t varintBP128MaxBytes(size_t count) {
     size_t fullBlocks = count / VARINT_BP128_BLOCK_SIZE;
     size_t remainder = count % VARINT_BP128_BLOCK_SIZE;
+    /* Leading tagged varint (count or first value): up to 9 bytes */
     /* Each full block: 1 byte header + up to 128*8 bytes data */
     /* Partial block: 1 byte header + 1 byte count + up to remainder*8 bytes */
-    size_t bytes = fullBlocks * VARINT_BP128_MAX_BLOCK_BYTES;
+    size_t bytes = VARINT_BP128_MAX_HEADER_BYTES +
+                   fullBlocks * VARINT_BP128_MAX_BLOCK_BYTES;
     if (remainder > 0) {
         bytes += 2 + remainder * 8; /* header + count + data */
     }
